@@ -1,4 +1,5 @@
 import Rspirv.Props.RoundTrip
+import Rspirv.Props.C01Full
 import Rspirv.Instances
 /-!
 # C01 — reload, on the tables of this tree, with the hypotheses in executable form
@@ -7,7 +8,7 @@ import Rspirv.Instances
 (`grammar`, `words32`) are exactly the hypotheses under which loading the assembled output again returns the same module.
 -/
 namespace Rspirv.Props.C01End
-open Rspirv Rspirv.Model Rspirv.Instances Rspirv.Props.RoundTrip
+open Rspirv Rspirv.Model Rspirv.Model.DState Rspirv.Instances Rspirv.Props.RoundTrip
 
 theorem C01_reload_scope (bytes : List Nat) (m : Module Inst) (h : loadBytes theTables theLTables bytes = .ok m)
     (hg : grammarStreamB theTables [] (Rspirv.Props.C15.allInstIter m) = true)
@@ -16,5 +17,22 @@ theorem C01_reload_scope (bytes : List Nat) (m : Module Inst) (h : loadBytes the
     loadBytes theTables theLTables ((Rspirv.Props.C15.assemble assembleInst m).flatMap Spec.wordBytes) = .ok m :=
   C01_reload_bytes theTables theLTables Rspirv.Props.C04.tables_safe Rspirv.Props.C02.good_tables bytes m h
     (grammarStreamB_sound _ _ _ hg) (by intro w hw'; simpa using (List.all_eq_true.1 hw) w hw') hsmall
+
+/-- `C01_full` on the tables regenerated from this tree -/
+theorem C01_full_inst (bytes : List Nat) (hb : ∀ b ∈ bytes, b < 256) (hs : bytes.length < 2 ^ 63) (m : Module Inst)
+    (h : loadBytes theTables theLTables bytes = .ok m) :
+    20 ≤ bytes.length ∧ le32 bytes 0 = theTables.magic ∧
+    ∃ hd is, hd = ⟨theTables.magic, (le32 bytes 4 / 65536 % 256) * 65536 + (le32 bytes 4 / 256 % 256) * 256, 0x000f0000,
+        le32 bytes 12, 0⟩ ∧
+      Rspirv.Props.C01Full.Chunks is (Spec.streamWords bytes) ∧ load theLTables hd is = .ok m ∧
+      (∀ i ∈ is, Rspirv.Props.C01Words.InstWords i (assembleInst i) ∧ Rspirv.Props.C02.WordsOk (assembleInst i)) ∧
+      (Rspirv.Props.C01.TidyRun theLTables (LState.start hd) is →
+        (Rspirv.Props.C15.allInstIter m).Perm is ∧
+        (∀ k, k ≤ 10 → (m.sect k).Sublist is) ∧ (m.functions.flatMap Rspirv.Props.C01.fnChain).Sublist is ∧
+        Rspirv.Props.C15.assemble assembleInst m =
+          [hd.magic, hd.version, hd.generator, hd.bound, hd.reserved] ++
+            (Rspirv.Props.C15.allInstIter m).flatMap assembleInst ∧
+        (Rspirv.Props.C15.assemble assembleInst m).length = 5 + (Spec.streamWords bytes).length) :=
+  Rspirv.Props.C01Full.C01_full theTables theLTables Rspirv.Props.C04.tables_safe Rspirv.Props.C02.good_tables bytes hb hs m h
 
 end Rspirv.Props.C01End
